@@ -163,17 +163,27 @@ Frame(b, p, n) ==
 \* primitive node: [cls, cons |-> 0, num, val, lenform]; constructed: [cls, cons |-> 1, num, kids, lenform]
 \* lenform = number of length octets used (1 = short form or 0x81.., etc.)
 \* a malformed region yields a single [bad |-> TRUE] node
-RECURSIVE Forest(_, _, _)
-Forest(b, p, e) ==
-    IF p > e THEN <<>> ELSE
+\* The siblings are parsed in blocks of ForestBlock so that the recursion depth is ForestBlock + siblings / ForestBlock
+\* rather than the number of siblings (a corrupt length can turn 64 KiB of content into 32768 empty siblings).
+ForestBlock == 64
+RECURSIVE Forest(_, _, _), ForestN(_, _, _, _)
+\* up to n siblings from p: [f |-> nodes, next |-> position after them, stop |-> no more siblings follow]
+ForestN(b, p, e, n) ==
+    IF p > e THEN [f |-> <<>>, next |-> p, stop |-> TRUE]
+    ELSE IF n = 0 THEN [f |-> <<>>, next |-> p, stop |-> FALSE] ELSE
     LET h == Header(b, p) IN
-    IF ~h.ok \/ p + h.hl + h.len - 1 > e THEN <<[bad |-> TRUE]>>
+    IF ~h.ok \/ p + h.hl + h.len - 1 > e THEN [f |-> <<[bad |-> TRUE]>>, next |-> e + 1, stop |-> TRUE]
     ELSE LET cs == p + h.hl
              ce == p + h.hl + h.len - 1
              node == IF h.cons = 1
                      THEN [bad |-> FALSE, cls |-> h.cls, cons |-> 1, num |-> h.num, kids |-> Forest(b, cs, ce)]
                      ELSE [bad |-> FALSE, cls |-> h.cls, cons |-> 0, num |-> h.num, val |-> SubSeq(b, cs, ce)]
-         IN  <<node>> \o Forest(b, ce + 1, e)
+             r == ForestN(b, ce + 1, e, n - 1)
+         IN  [f |-> <<node>> \o r.f, next |-> r.next, stop |-> r.stop]
+Forest(b, p, e) ==
+    IF p > e THEN <<>> ELSE
+    LET blk == ForestN(b, p, e, ForestBlock) IN
+    IF blk.stop THEN blk.f ELSE blk.f \o Forest(b, blk.next, e)
 
 RECURSIVE ForestBad(_)
 ForestBad(f) ==
